@@ -1,22 +1,101 @@
 import Log4rsModel.Literals.Lemmas
+import Log4rsModel.Literals.DurationArith
 /-
 C20 — Size and interval literals parse exactly; bad or overflowing ones are rejected.
 Only property theorems and non-vacuity examples live here; helpers are in Literals/Lemmas.lean.
 -/
 namespace Log4rs.Literals
-open Log4rs.Str
+open Log4rs.Str Log4rs
 
-/-- The model of the size visitor agrees with the specification on every scalar. -/
-theorem C20_size_eq_spec (sc : Scalar) : exceptToOption (parseSize sc) = specSize sc := by
+/-! ### The vocabulary of the statement -/
+
+/-- "number": the value of a digit string is the number its decimal numeral denotes -/
+theorem C20_digitsVal_decimal (n : Nat) : digitsVal (Nat.toDigits 10 n) = n := by
+  rw [digitsVal_eq]; exact Nat.ofDigitChars_ten_toDigits
+
+/-- leading zeros do not change it -/
+theorem C20_digitsVal_leading_zeros (k : Nat) (ds : List Char) :
+    digitsVal (List.replicate k '0' ++ ds) = digitsVal ds := by
+  rw [digitsVal_eq, digitsVal_eq, Nat.ofDigitChars_append]; simp
+
+/-- "white space": `isWhitespace` is exactly the 25 code points of the Unicode White_Space property -/
+theorem C20_whitespace_table (c : Char) :
+    isWhitespace c = true ↔ c.toNat ∈ [9, 10, 11, 12, 13, 0x20, 0x85, 0xA0, 0x1680, 0x2000, 0x2001, 0x2002,
+      0x2003, 0x2004, 0x2005, 0x2006, 0x2007, 0x2008, 0x2009, 0x200A, 0x2028, 0x2029, 0x202F, 0x205F, 0x3000] := by
+  simp only [isWhitespace, List.mem_cons, List.mem_nil_iff, or_false, Bool.or_eq_true, Bool.and_eq_true,
+    decide_eq_true_eq]
+  omega
+
+/-- "powers of 1024 for b/kb/mb/gb/tb and their -ib forms": the nine words and their exponents -/
+theorem C20_size_unit_words (w : List Char) (k : Nat) :
+    unitExp w = some k ↔ (w, k) ∈ sizeWords :=
+  ⟨unitExp_words w k, fun h => sizeWords_exp _ h⟩
+
+/-- "the named unit, singular or plural": the fourteen words -/
+theorem C20_interval_unit_words (w : List Char) (t : TUnit) :
+    unitOf w = some t ↔ (w = t.word ∨ w = t.word ++ ['s']) := by
+  constructor
+  · intro h
+    have := List.find?_some h
+    simpa using this
+  · intro h
+    have hm : (w, t) ∈ timeWords := by rcases h with rfl | rfl <;> cases t <;> decide
+    exact timeWords_unit _ hm
+
+/-- The unit chain of `size.rs` IS the statement's table: for every unit text, in any letter case, the
+multiplier the code uses is 1024 to the power named by the word (and no other word is a unit). -/
+theorem C20_size_units (u : List Char) :
+    lookupUnit sizeUnitTable u = (unitExp (u.map toAsciiLower)).map (fun k => 1024 ^ k) :=
+  size_units u
+
+/-- The unit chain of `time.rs` IS "the named unit, singular or plural", in any letter case. -/
+theorem C20_interval_units (u : List Char) :
+    lookupUnit timeUnitTable u = unitOf (u.map toAsciiLower) :=
+  interval_units u
+
+/-! ### No panic: the byte slicing of the visitors -/
+
+/-- The one panic source of the two visitors, `v[..n]` / `v[n..]` with `n` from `str::find`, is
+always at a character boundary: the split succeeds and yields the longest digit prefix and the rest. -/
+theorem C20_split_at_find (v : List Char) :
+    splitNumberUnit v =
+      .ok (if v.dropWhile isAsciiDigit = [] then (trim v, none)
+           else (trim (v.takeWhile isAsciiDigit), some (trim (v.dropWhile isAsciiDigit)))) :=
+  splitNumberUnit_eq v
+
+theorem C20_size_no_panic (sc : Visit) (w : String) : visitSize sc ≠ .panic w := by
+  cases sc with
+  | u64 v h => simp [visitSize]
+  | i64 v h => simp only [visitSize]; split <;> simp
+  | other => simp [visitSize]
+  | str s =>
+    simp only [visitSize, parseSizeStr, splitNumberUnit_eq]
+    split <;> (try simp) <;> (repeat (split <;> try simp))
+
+theorem C20_interval_no_panic (sc : Visit) (w : String) : visitInterval sc ≠ .panic w := by
+  cases sc with
+  | u64 v h => simp only [visitInterval]; split <;> simp
+  | i64 v h => simp only [visitInterval]; split <;> simp
+  | other => simp [visitInterval]
+  | str s =>
+    simp only [visitInterval, parseIntervalStr, splitNumberUnit_eq]
+    split <;> (try simp) <;> (repeat (split <;> try simp))
+
+/-! ### Model = executable specification, on every scalar -/
+
+theorem C20_size_eq_spec (sc : Visit) : toOpt (visitSize sc) = specSize sc := by
   cases sc with
   | other => rfl
-  | int n =>
-    simp only [parseSize, specSize]
-    by_cases h0 : 0 ≤ n
-    · by_cases h1 : n.toNat ≤ U64_MAX <;> simp [h0, h1, exceptToOption]
-    · simp only [h0, if_false]; split <;> rfl
+  | u64 v h => rfl
+  | i64 v h =>
+    simp only [visitSize, specSize]
+    by_cases h0 : v < 0
+    · have : ¬ 0 ≤ v := by omega
+      simp [h0, this, toOpt]
+    · have : 0 ≤ v := by omega
+      simp [h0, this, toOpt]
   | str s =>
-    simp only [parseSize, specSize, parseSizeStr, splitNumberUnit, denote]
+    simp only [visitSize, specSize, parseSizeStr, splitNumberUnit_eq, readLit_eq]
     have hds := takeWhile_all isAsciiDigit s
     generalize hd : s.takeWhile isAsciiDigit = ds at *
     have hsplit := take_drop_while isAsciiDigit s
@@ -26,48 +105,45 @@ theorem C20_size_eq_spec (sc : Scalar) : exceptToOption (parseSize sc) = specSiz
       rw [hr] at hsplit
       simp only [List.append_nil] at hsplit
       subst hsplit
-      simp only [trim_digits ds hds]
+      simp only [if_true, trim_digits ds hds]
       by_cases he : ds = []
-      · subst he; simp [parseUnsigned, parseDigits, stripPlus, exceptToOption]
+      · subst he; simp [parseUnsigned, parseDigits, stripPlus, toOpt]
       · rw [parseUnsigned_digits _ ds he hds]
-        by_cases hm : digitsVal ds ≤ U64_MAX <;> simp [he, hm, exceptToOption]
+        by_cases hm : digitsVal ds ≤ U64_MAX <;> simp [he, hm, toOpt, fit]
     | cons c t =>
-      simp only [trim_digits ds hds]
+      simp only [reduceCtorEq, if_false, trim_digits ds hds]
       by_cases he : ds = []
-      · subst he; simp [parseUnsigned, parseDigits, stripPlus, exceptToOption]
-      · rw [parseUnsigned_digits _ ds he hds]
-        simp only [he, List.isEmpty_iff, if_false, List.isEmpty_cons, Bool.false_eq_true]
-        cases hl : lookupUnit sizeUnitTable (trim (c :: t)) with
+      · subst he; simp [parseUnsigned, parseDigits, stripPlus, toOpt]
+      · rw [parseUnsigned_digits _ ds he hds, size_units]
+        simp only [he, if_false]
+        cases hl : unitExp ((trim (c :: t)).map toAsciiLower) with
         | none =>
-          by_cases hm : digitsVal ds ≤ U64_MAX <;> simp [hm, exceptToOption]
-        | some mult =>
-          obtain ⟨e, hemem, hemult, _⟩ := lookupUnit_mem _ _ _ hl
-          have hpos : 1 ≤ mult := hemult ▸ sizeUnit_pos e hemem
+          by_cases hm : digitsVal ds ≤ U64_MAX <;> simp [hm, toOpt]
+        | some k =>
+          have hpos : 1 ≤ 1024 ^ k := Nat.pow_pos (by decide)
           by_cases hm : digitsVal ds ≤ U64_MAX
-          · by_cases hmm : digitsVal ds * mult ≤ U64_MAX <;> simp [hm, hmm, exceptToOption]
-          · have : ¬ digitsVal ds * mult ≤ U64_MAX := by
+          · by_cases hmm : digitsVal ds * 1024 ^ k ≤ U64_MAX <;> simp [hm, hmm, toOpt, fit]
+          · have : ¬ digitsVal ds * 1024 ^ k ≤ U64_MAX := by
               intro hc
-              have : digitsVal ds ≤ digitsVal ds * mult := Nat.le_mul_of_pos_right _ hpos
+              have : digitsVal ds ≤ digitsVal ds * 1024 ^ k := Nat.le_mul_of_pos_right _ hpos
               omega
-            simp [hm, this, exceptToOption]
+            simp [hm, this, toOpt, fit]
 
-
-/-- Same for the interval visitor (with the integer range check of the `fix:` commit). -/
-theorem C20_interval_eq_spec (sc : Scalar) :
-    exceptToOption (parseInterval sc) = specInterval sc := by
+theorem C20_interval_eq_spec (sc : Visit) : toOpt (visitInterval sc) = specInterval sc := by
   cases sc with
   | other => rfl
-  | int n =>
-    simp only [parseInterval, parseIntervalWith, specInterval]
-    by_cases h0 : 0 ≤ n
-    · by_cases h1 : n.toNat ≤ I64_MAX
-      · simp [h0, h1, exceptToOption]
-      · simp only [h0, h1, if_true, if_false, and_false]
-        split <;> rfl
-    · simp only [h0, if_false, false_and]; split <;> rfl
+  | u64 v h =>
+    simp only [visitInterval, specInterval, fit]
+    by_cases h1 : v ≤ I64_MAX <;> simp [h1, toOpt]
+  | i64 v h =>
+    simp only [visitInterval, specInterval]
+    by_cases h0 : v < 0
+    · have : ¬ 0 ≤ v := by omega
+      simp [h0, this, toOpt]
+    · have : 0 ≤ v := by omega
+      simp [h0, this, toOpt]
   | str s =>
-    simp only [parseInterval, parseIntervalWith, specInterval, parseIntervalStr, splitNumberUnit,
-      denote]
+    simp only [visitInterval, specInterval, parseIntervalStr, splitNumberUnit_eq, readLit_eq]
     have hds := takeWhile_all isAsciiDigit s
     generalize hd : s.takeWhile isAsciiDigit = ds at *
     have hsplit := take_drop_while isAsciiDigit s
@@ -94,152 +170,587 @@ theorem C20_interval_eq_spec (sc : Scalar) :
       rw [hr] at hsplit
       simp only [List.append_nil] at hsplit
       subst hsplit
-      simp only [trim_digits ds hds]
+      simp only [if_true, trim_digits ds hds]
       by_cases he : ds = []
-      · subst he; simp [parseSigned, parseUnsigned, parseDigits, stripPlus, exceptToOption]
+      · subst he; simp [parseSigned, parseUnsigned, parseDigits, stripPlus, toOpt]
       · rw [hsigned he]
         have hnn : ¬ ((digitsVal ds : Int) < 0) := by omega
-        by_cases hm : digitsVal ds ≤ I64_MAX <;> simp [he, hm, hnn, exceptToOption]
+        by_cases hm : digitsVal ds ≤ I64_MAX <;> simp [he, hm, hnn, toOpt, fit]
     | cons c t =>
-      simp only [trim_digits ds hds]
+      simp only [reduceCtorEq, if_false, trim_digits ds hds]
       by_cases he : ds = []
-      · subst he; simp [parseSigned, parseUnsigned, parseDigits, stripPlus, exceptToOption]
-      · rw [hsigned he]
-        simp only [he, List.isEmpty_iff, if_false, List.isEmpty_cons, Bool.false_eq_true]
+      · subst he; simp [parseSigned, parseUnsigned, parseDigits, stripPlus, toOpt]
+      · rw [hsigned he, interval_units]
+        simp only [he, if_false]
         by_cases hm : digitsVal ds ≤ I64_MAX
         · have : ¬ ((digitsVal ds : Int) < 0) := by omega
-          cases hl : lookupUnit timeUnitTable (trim (c :: t)) <;>
-            simp [hm, this, exceptToOption]
-        · cases hl : lookupUnit timeUnitTable (trim (c :: t)) <;> simp [hm, exceptToOption]
+          cases hl : unitOf ((trim (c :: t)).map toAsciiLower) <;>
+            simp [hm, this, toOpt, fit]
+        · cases hl : unitOf ((trim (c :: t)).map toAsciiLower) <;> simp [hm, toOpt, fit]
 
-/-! ### The statement's clauses, one theorem each (all on the model of the code) -/
+/-! ### The statement as an equivalence: the code accepts exactly the literals, with exactly their value -/
 
-/-- '<number><unit>': any letter case, optional white space between number and unit (and after the
-unit): exactly number × unit when it fits in `u64`, rejected otherwise — never wrapped. -/
-theorem C20_size_number_unit (e : List Char × Nat) (he : e ∈ sizeUnitTable)
-    (ds ws u ws' : List Char) (hne : ds ≠ []) (hds : ∀ c ∈ ds, isAsciiDigit c = true)
-    (hws : ∀ c ∈ ws, isWhitespace c = true) (hws' : ∀ c ∈ ws', isWhitespace c = true)
-    (hu : eqIgnoreAsciiCase u e.1 = true) :
-    exceptToOption (parseSize (.str (ds ++ (ws ++ (u ++ ws'))))) =
-      if digitsVal ds * e.2 ≤ U64_MAX then some (digitsVal ds * e.2) else none := by
+/-- `deserialize_limit` on a string: accepted with value `v` iff the text is a size literal denoting
+`v` (number x power of 1024, or a bare number of bytes) and `v` fits `u64`. Everything else — negative
+or fractional numbers, unknown units, junk, values that do not fit — is an error. -/
+theorem C20_size_iff (s : List Char) (v : Nat) :
+    visitSize (.str s) = .ok v ↔ SizeLit s v ∧ v < 2 ^ 64 := by
+  rw [← toOpt_eq_some, C20_size_eq_spec]
+  simp only [specSize]
+  constructor
+  · intro h
+    cases hr : readLit unitExp s with
+    | none => simp [hr] at h
+    | some p =>
+      obtain ⟨n, o⟩ := p
+      obtain ⟨hdig, hn, hcase⟩ := readLit_some _ _ _ _ hr
+      have hsplit := take_drop_while isAsciiDigit s
+      rw [hr] at h
+      rcases hcase with ⟨hrest, ho⟩ | ⟨hrest, k, ho, hk⟩
+      · subst ho
+        simp only [fit_eq_some] at h
+        rw [hrest, List.append_nil] at hsplit
+        refine ⟨?_, by have := h.1; simp only [U64_MAX] at this; omega⟩
+        rw [h.2, hn]
+        have := SizeLit.bare _ hdig
+        rw [hsplit] at this ⊢
+        exact this
+      · subst ho
+        simp only [fit_eq_some] at h
+        obtain ⟨ws, ws', hdec, hws, hws'⟩ := trim_decomp (s.dropWhile isAsciiDigit)
+        refine ⟨?_, by have := h.1; simp only [U64_MAX] at this; omega⟩
+        rw [h.2, hn]
+        have := SizeLit.unit _ ws _ ws' k hdig hws hws' hk
+        rwa [← hdec, hsplit] at this
+  · rintro ⟨hl, hv⟩
+    cases hl with
+    | bare ds hds =>
+      rw [readLit_bare _ _ hds]
+      simp only [fit_eq_some, and_true]
+      simp only [U64_MAX]; omega
+    | unit ds ws u ws' k hds hws hws' hk =>
+      rw [readLit_unit sizeWords unitExp unitExp_words sizeWords_lower ds ws u ws' k hds hws hws' hk]
+      simp only [fit_eq_some, and_true]
+      simp only [U64_MAX]; omega
+
+/-- the same for `TimeTriggerInterval`: accepted as `n` units `t` iff the text is an interval literal
+denoting that and `n` fits `i64` -/
+theorem C20_interval_iff (s : List Char) (t : TUnit) (k : Int) :
+    visitInterval (.str s) = .ok (t, k) ↔ ∃ n : Nat, IntervalLit s t n ∧ n < 2 ^ 63 ∧ k = (n : Int) := by
+  rw [← toOpt_eq_some, C20_interval_eq_spec]
+  simp only [specInterval]
+  constructor
+  · intro h
+    cases hr : readLit unitOf s with
+    | none => simp [hr] at h
+    | some p =>
+      obtain ⟨n, o⟩ := p
+      obtain ⟨hdig, hn, hcase⟩ := readLit_some _ _ _ _ hr
+      have hsplit := take_drop_while isAsciiDigit s
+      rw [hr] at h
+      rcases hcase with ⟨hrest, ho⟩ | ⟨hrest, u, ho, hk⟩
+      · subst ho
+        by_cases hm1 : n ≤ I64_MAX
+        · simp [fit, hm1] at h
+          rw [hrest, List.append_nil] at hsplit
+          refine ⟨n, ?_, by simp only [I64_MAX] at hm1; omega, h.2.symm⟩
+          rw [← h.1, hn]
+          have := IntervalLit.bare _ hdig
+          rw [hsplit] at this ⊢
+          exact this
+        · simp [fit, hm1] at h
+      · subst ho
+        by_cases hm1 : n ≤ I64_MAX
+        · simp [fit, hm1] at h
+          obtain ⟨ws, ws', hdec, hws, hws'⟩ := trim_decomp (s.dropWhile isAsciiDigit)
+          refine ⟨n, ?_, by simp only [I64_MAX] at hm1; omega, h.2.symm⟩
+          rw [← h.1, hn]
+          have := IntervalLit.unit _ ws _ ws' u hdig hws hws' hk
+          rwa [← hdec, hsplit] at this
+        · simp [fit, hm1] at h
+  · rintro ⟨n, hl, hv, hk⟩
+    subst hk
+    cases hl with
+    | bare _ hds =>
+      rw [readLit_bare _ _ hds]
+      have : digitsVal s ≤ I64_MAX := by simp only [I64_MAX]; omega
+      simp [fit, this]
+    | unit ds ws u ws' t hds hws hws' hk =>
+      rw [readLit_unit timeWords unitOf unitOf_words timeWords_lower ds ws u ws' t hds hws hws' hk]
+      have : digitsVal ds ≤ I64_MAX := by simp only [I64_MAX]; omega
+      simp [fit, this]
+
+/-! ### The statement's clauses, one theorem each (corollaries, in the shape of the English text) -/
+
+/-- '<number><unit>': any letter case of any of the nine unit words, any white space between number
+and unit and after the unit: exactly number x 1024^k when that fits `u64`, rejected otherwise —
+never wrapped. -/
+theorem C20_size_number_unit (ds ws u ws' : List Char) (k : Nat)
+    (hds : Digits ds) (hws : AllWs ws) (hws' : AllWs ws') (hu : unitExp (u.map toAsciiLower) = some k) :
+    toOpt (visitSize (.str (ds ++ (ws ++ (u ++ ws'))))) =
+      if digitsVal ds * 1024 ^ k < 2 ^ 64 then some (digitsVal ds * 1024 ^ k) else none := by
   rw [C20_size_eq_spec]
-  simp only [specSize, denote_unit sizeUnitTable sizeUnit_self sizeUnit_lower e he ds ws u ws'
-    hne hds hws hws' hu]
+  simp only [specSize, readLit_unit sizeWords unitExp unitExp_words sizeWords_lower ds ws u ws' k hds hws
+    hws' hu, fit_u64]
 
 /-- a bare number means bytes -/
-theorem C20_size_bare (ds : List Char) (hne : ds ≠ []) (hds : ∀ c ∈ ds, isAsciiDigit c = true) :
-    exceptToOption (parseSize (.str ds)) =
-      if digitsVal ds ≤ U64_MAX then some (digitsVal ds) else none := by
+theorem C20_size_bare (ds : List Char) (hds : Digits ds) :
+    toOpt (visitSize (.str ds)) = if digitsVal ds < 2 ^ 64 then some (digitsVal ds) else none := by
   rw [C20_size_eq_spec]
-  simp only [specSize, denote_bare sizeUnitTable ds hne hds]
+  simp only [specSize, readLit_bare unitExp ds hds, fit_u64]
 
-/-- whatever is accepted is a digit string followed by nothing or by a known unit word, and the
-value is the exact product, which fits in `u64`: negative numbers, leading signs or spaces,
-fractions, unknown units, junk suffixes and overflowing values are all rejected. -/
-theorem C20_size_accept_sound (s : List Char) (v : Nat) (h : parseSize (.str s) = .ok v) :
-    v ≤ U64_MAX ∧ ∃ ds rest, s = ds ++ rest ∧ ds ≠ [] ∧ (∀ c ∈ ds, isAsciiDigit c = true) ∧
-      ((rest = [] ∧ v = digitsVal ds) ∨
-       (∃ e ∈ sizeUnitTable, eqIgnoreAsciiCase (trim rest) e.1 = true ∧ v = digitsVal ds * e.2)) := by
-  have hs : specSize (.str s) = some v := by rw [← C20_size_eq_spec, h]; rfl
-  simp only [specSize] at hs
-  cases hd : denote sizeUnitTable s with
-  | none => simp [hd] at hs
+/-- whatever is accepted starts with digits; the number is the LONGEST digit prefix; what follows is
+nothing, or (after trimming) one of the nine unit words in some letter case; the value is the exact
+product and fits `u64` -/
+theorem C20_size_accept_sound (s : List Char) (v : Nat) (h : visitSize (.str s) = .ok v) :
+    v < 2 ^ 64 ∧ Digits (s.takeWhile isAsciiDigit) ∧
+      ((s.dropWhile isAsciiDigit = [] ∧ v = digitsVal (s.takeWhile isAsciiDigit)) ∨
+       (∃ k, unitExp ((trim (s.dropWhile isAsciiDigit)).map toAsciiLower) = some k ∧
+          v = digitsVal (s.takeWhile isAsciiDigit) * 1024 ^ k)) := by
+  rw [← toOpt_eq_some, C20_size_eq_spec] at h
+  simp only [specSize] at h
+  cases hr : readLit unitExp s with
+  | none => simp [hr] at h
   | some p =>
     obtain ⟨n, o⟩ := p
-    obtain ⟨ds, rest, hsplit, hne, hds, hn, hcase⟩ := denote_some _ _ _ _ hd
-    rw [hd] at hs
-    rcases hcase with ⟨hr, ho⟩ | ⟨e, hemem, ho, heq⟩
+    obtain ⟨hdig, hn, hcase⟩ := readLit_some _ _ _ _ hr
+    rw [hr] at h
+    rcases hcase with ⟨hrest, ho⟩ | ⟨_, k, ho, hk⟩
     · subst ho
-      simp only at hs
-      split at hs
-      · simp at hs; subst hs
-        exact ⟨by assumption, ds, rest, hsplit, hne, hds, Or.inl ⟨hr, hn⟩⟩
-      · simp at hs
+      simp only [fit_eq_some, U64_MAX] at h
+      exact ⟨by omega, hdig, Or.inl ⟨hrest, by rw [h.2, hn]⟩⟩
     · subst ho
-      simp only at hs
-      split at hs
-      · simp at hs; subst hs
-        exact ⟨by assumption, ds, rest, hsplit, hne, hds, Or.inr ⟨e, hemem, heq, by rw [hn]⟩⟩
-      · simp at hs
+      simp only [fit_eq_some, U64_MAX] at h
+      exact ⟨by omega, hdig, Or.inr ⟨k, hk, by rw [h.2, hn]⟩⟩
 
-/-- a string that does not start with an ASCII digit (sign, space, letter, empty) is rejected -/
+/-- a string that does not start with an ASCII digit is rejected: negative numbers (`-5`, `-5kb`),
+explicit signs, leading white space, digits of other scripts, a unit without a number, the empty string -/
 theorem C20_size_leading_nondigit_rejected (s : List Char)
     (h : s = [] ∨ ∃ c t, s = c :: t ∧ isAsciiDigit c = false) :
-    exceptToOption (parseSize (.str s)) = none := by
-  cases hp : parseSize (.str s) with
-  | error _ => rfl
-  | ok v =>
-    obtain ⟨_, ds, rest, hsplit, hne, hds, _⟩ := C20_size_accept_sound s v hp
-    exfalso
-    cases ds with
-    | nil => exact hne rfl
-    | cons a t =>
-      rcases h with rfl | ⟨c, t', rfl, hc⟩
-      · simp at hsplit
-      · simp at hsplit
-        have := hds a (by simp)
-        rw [← hsplit.1] at this
-        rw [this] at hc
-        exact absurd hc (by simp)
+    toOpt (visitSize (.str s)) = none := by
+  rw [C20_size_eq_spec]; simp only [specSize, readLit_leading_nondigit unitExp s h]
 
-/-- integer scalars: exactly the non-negative 64-bit values are accepted, unchanged -/
-theorem C20_size_int (n : Int) :
-    exceptToOption (parseSize (.int n)) = if 0 ≤ n ∧ n.toNat ≤ U64_MAX then some n.toNat else none := by
-  rw [C20_size_eq_spec]; rfl
+theorem C20_size_negative_rejected (r : List Char) : toOpt (visitSize (.str ('-' :: r))) = none :=
+  C20_size_leading_nondigit_rejected _ (Or.inr ⟨'-', r, rfl, by decide⟩)
 
-theorem C20_interval_number_unit (e : List Char × TUnit) (he : e ∈ timeUnitTable)
-    (ds ws u ws' : List Char) (hne : ds ≠ []) (hds : ∀ c ∈ ds, isAsciiDigit c = true)
-    (hws : ∀ c ∈ ws, isWhitespace c = true) (hws' : ∀ c ∈ ws', isWhitespace c = true)
-    (hu : eqIgnoreAsciiCase u e.1 = true) :
-    exceptToOption (parseInterval (.str (ds ++ (ws ++ (u ++ ws'))))) =
-      if digitsVal ds ≤ I64_MAX then some (e.2, (digitsVal ds : Int)) else none := by
-  rw [C20_interval_eq_spec]
-  simp only [specInterval, denote_unit timeUnitTable timeUnit_self timeUnit_lower e he ds ws u ws'
-    hne hds hws hws' hu]
+/-- fractional numbers are rejected: digits, a '.', anything -/
+theorem C20_size_fraction_rejected (ds r : List Char) (hds : Digits ds) :
+    toOpt (visitSize (.str (ds ++ '.' :: r))) = none := by
+  rw [C20_size_eq_spec]
+  simp only [specSize, readLit_nonletter sizeWords unitExp unitExp_words sizeWords_lower ds r '.' hds
+    (by decide) (by decide) (by decide)]
 
-theorem C20_interval_bare (ds : List Char) (hne : ds ≠ []) (hds : ∀ c ∈ ds, isAsciiDigit c = true) :
-    exceptToOption (parseInterval (.str ds)) =
-      if digitsVal ds ≤ I64_MAX then some (.second, (digitsVal ds : Int)) else none := by
-  rw [C20_interval_eq_spec]
-  simp only [specInterval, denote_bare timeUnitTable ds hne hds]
+/-- unknown units and junk suffixes are rejected: digits followed by a remainder that is not (after
+trimming, in lower case) one of the nine words -/
+theorem C20_size_unknown_unit_rejected (ds rest : List Char) (hds : Digits ds)
+    (hr : ∃ c t, rest = c :: t ∧ isAsciiDigit c = false)
+    (hu : unitExp ((trim rest).map toAsciiLower) = none) :
+    toOpt (visitSize (.str (ds ++ rest))) = none := by
+  rw [C20_size_eq_spec]; simp only [specSize, readLit_unknown unitExp ds rest hds hr hu]
 
-/-- no accepted interval is negative or out of `i64` range — for every scalar form (this is the
-clause the original code violated for integer scalars above `i64::MAX`, finding F8) -/
-theorem C20_interval_never_wraps (sc : Scalar) (u : TUnit) (k : Int)
-    (h : parseInterval sc = .ok (u, k)) : 0 ≤ k ∧ k ≤ (I64_MAX : Int) := by
-  have hs : specInterval sc = some (u, k) := by rw [← C20_interval_eq_spec, h]; rfl
+/-- integer scalars, `visit_u64`: every value is the number of bytes -/
+theorem C20_size_u64 (v : Nat) (h : v < 2 ^ 64) : visitSize (.u64 v h) = .ok v := rfl
+
+/-- integer scalars, `visit_i64`: negative rejected, everything else unchanged -/
+theorem C20_size_i64 (v : Int) (h : -(2 ^ 63 : Int) ≤ v ∧ v < 2 ^ 63) :
+    visitSize (.i64 v h) = if v < 0 then .err .negative else .ok v.toNat := rfl
+
+/-- The signed visitor method agrees with the unsigned one: an integer that reaches the visitor
+through TOML (always `visit_i64`) gets the same answer as through JSON / YAML. -/
+theorem C20_size_routes_agree (sc : Scalar) (t : Visit) (h : sc.visitToml = some t) :
+    visitSize t = visitSize sc.visit := by
   cases sc with
-  | other => simp [specInterval] at hs
+  | str s => simp only [Scalar.visitToml, Option.some.injEq] at h; subst h; rfl
+  | other => simp only [Scalar.visitToml, Option.some.injEq] at h; subst h; rfl
   | int n =>
-    simp only [specInterval] at hs
-    split at hs
-    · rename_i hc; simp at hs; rw [← hs.2]; omega
-    · simp at hs
+    by_cases h2 : -(2 ^ 63 : Int) ≤ n ∧ n < 2 ^ 63
+    · rw [visitToml_int n h2] at h
+      simp only [Option.some.injEq] at h; subst h
+      by_cases h0 : 0 ≤ n
+      · have h1 : n.toNat < 2 ^ 64 := by omega
+        have hn : ¬ n < 0 := by omega
+        rw [visit_int_u64 n h0 h1]
+        simp [visitSize, hn]
+      · rw [visit_int_i64 n (by omega) h2]
+    · rw [visitToml_int_none n h2] at h; simp at h
+
+/-- a document integer (any size): exactly the values `0 ..= u64::MAX` are accepted, unchanged;
+negative numbers and larger ones are rejected -/
+theorem C20_size_int (n : Int) :
+    (parseSize (.int n)).toOption = if 0 ≤ n ∧ n.toNat ≤ U64_MAX then some n.toNat else none := by
+  unfold parseSize
+  by_cases h0 : 0 ≤ n
+  · by_cases h1 : n.toNat < 2 ^ 64
+    · have : n.toNat ≤ U64_MAX := by simp only [U64_MAX]; omega
+      rw [visit_int_u64 n h0 h1, if_pos ⟨h0, this⟩]; rfl
+    · have : ¬ (0 ≤ n ∧ n.toNat ≤ U64_MAX) := by simp only [U64_MAX]; omega
+      rw [visit_int_other n (by omega) (by omega), if_neg this]; rfl
+  · have : ¬ (0 ≤ n ∧ n.toNat ≤ U64_MAX) := fun hc => h0 hc.1
+    rw [if_neg this]
+    by_cases h2 : -(2 ^ 63 : Int) ≤ n ∧ n < 2 ^ 63
+    · rw [visit_int_i64 n (by omega) h2]
+      have : n < 0 := by omega
+      simp [visitSize, this, toExcept, Except.toOption]
+    · rw [visit_int_other n (fun hc => h0 hc.1) h2]; rfl
+
+/-- '<number><unit>' for intervals: any letter case of any of the fourteen words, any white space:
+exactly `number` of the named unit when the number fits `i64`, rejected otherwise — never wrapped.
+The count is not multiplied out: what `n` months or years are is decided by the schedule (C16). -/
+theorem C20_interval_number_unit (ds ws u ws' : List Char) (t : TUnit)
+    (hds : Digits ds) (hws : AllWs ws) (hws' : AllWs ws') (hu : unitOf (u.map toAsciiLower) = some t) :
+    toOpt (visitInterval (.str (ds ++ (ws ++ (u ++ ws'))))) =
+      if digitsVal ds < 2 ^ 63 then some (t, (digitsVal ds : Int)) else none := by
+  rw [C20_interval_eq_spec]
+  simp only [specInterval, readLit_unit timeWords unitOf unitOf_words timeWords_lower ds ws u ws' t hds hws
+    hws' hu, fit_i64]
+  split <;> rfl
+
+/-- a bare number means seconds -/
+theorem C20_interval_bare (ds : List Char) (hds : Digits ds) :
+    toOpt (visitInterval (.str ds)) =
+      if digitsVal ds < 2 ^ 63 then some (.second, (digitsVal ds : Int)) else none := by
+  rw [C20_interval_eq_spec]
+  simp only [specInterval, readLit_bare unitOf ds hds, fit_i64]
+  split <;> rfl
+
+theorem C20_interval_accept_sound (s : List Char) (t : TUnit) (k : Int)
+    (h : visitInterval (.str s) = .ok (t, k)) :
+    0 ≤ k ∧ k < 2 ^ 63 ∧ Digits (s.takeWhile isAsciiDigit) ∧
+      k = (digitsVal (s.takeWhile isAsciiDigit) : Int) ∧
+      ((s.dropWhile isAsciiDigit = [] ∧ t = .second) ∨
+       unitOf ((trim (s.dropWhile isAsciiDigit)).map toAsciiLower) = some t) := by
+  rw [← toOpt_eq_some, C20_interval_eq_spec] at h
+  simp only [specInterval] at h
+  cases hr : readLit unitOf s with
+  | none => simp [hr] at h
+  | some p =>
+    obtain ⟨n, o⟩ := p
+    obtain ⟨hdig, hn, hcase⟩ := readLit_some _ _ _ _ hr
+    rw [hr] at h
+    rcases hcase with ⟨hrest, ho⟩ | ⟨_, u, ho, hk⟩
+    · subst ho
+      simp only [fit_i64] at h
+      split at h
+      · simp at h
+        refine ⟨by omega, by omega, hdig, by rw [← h.2, hn], Or.inl ⟨hrest, h.1.symm⟩⟩
+      · simp at h
+    · subst ho
+      simp only [fit_i64] at h
+      split at h
+      · simp at h
+        refine ⟨by omega, by omega, hdig, by rw [← h.2, hn], Or.inr (by rw [hk, h.1])⟩
+      · simp at h
+
+theorem C20_interval_leading_nondigit_rejected (s : List Char)
+    (h : s = [] ∨ ∃ c t, s = c :: t ∧ isAsciiDigit c = false) :
+    toOpt (visitInterval (.str s)) = none := by
+  rw [C20_interval_eq_spec]; simp only [specInterval, readLit_leading_nondigit unitOf s h]
+
+theorem C20_interval_negative_rejected (r : List Char) : toOpt (visitInterval (.str ('-' :: r))) = none :=
+  C20_interval_leading_nondigit_rejected _ (Or.inr ⟨'-', r, rfl, by decide⟩)
+
+theorem C20_interval_fraction_rejected (ds r : List Char) (hds : Digits ds) :
+    toOpt (visitInterval (.str (ds ++ '.' :: r))) = none := by
+  rw [C20_interval_eq_spec]
+  simp only [specInterval, readLit_nonletter timeWords unitOf unitOf_words timeWords_lower ds r '.' hds
+    (by decide) (by decide) (by decide)]
+
+theorem C20_interval_unknown_unit_rejected (ds rest : List Char) (hds : Digits ds)
+    (hr : ∃ c t, rest = c :: t ∧ isAsciiDigit c = false)
+    (hu : unitOf ((trim rest).map toAsciiLower) = none) :
+    toOpt (visitInterval (.str (ds ++ rest))) = none := by
+  rw [C20_interval_eq_spec]; simp only [specInterval, readLit_unknown unitOf ds rest hds hr hu]
+
+/-- `visit_u64`: seconds; values above `i64::MAX` are rejected, not wrapped (finding F8, fixed in a913ecb) -/
+theorem C20_interval_u64 (v : Nat) (h : v < 2 ^ 64) :
+    visitInterval (.u64 v h) = if v < 2 ^ 63 then .ok (.second, (v : Int)) else .err .overflow := by
+  show (if v ≤ I64_MAX then _ else _) = _
+  by_cases hv : v < 2 ^ 63
+  · have : v ≤ I64_MAX := by simp only [I64_MAX]; omega
+    rw [if_pos hv, if_pos this]
+  · have : ¬ v ≤ I64_MAX := by simp only [I64_MAX]; omega
+    rw [if_neg hv, if_neg this]
+
+theorem C20_interval_i64 (v : Int) (h : -(2 ^ 63 : Int) ≤ v ∧ v < 2 ^ 63) :
+    visitInterval (.i64 v h) = if v < 0 then .err .negative else .ok (.second, v) := rfl
+
+theorem C20_interval_routes_agree (sc : Scalar) (t : Visit) (h : sc.visitToml = some t) :
+    visitInterval t = visitInterval sc.visit := by
+  cases sc with
+  | str s => simp only [Scalar.visitToml, Option.some.injEq] at h; subst h; rfl
+  | other => simp only [Scalar.visitToml, Option.some.injEq] at h; subst h; rfl
+  | int n =>
+    by_cases h2 : -(2 ^ 63 : Int) ≤ n ∧ n < 2 ^ 63
+    · rw [visitToml_int n h2] at h
+      simp only [Option.some.injEq] at h; subst h
+      by_cases h0 : 0 ≤ n
+      · have h1 : n.toNat < 2 ^ 64 := by omega
+        have hn : ¬ n < 0 := by omega
+        rw [visit_int_u64 n h0 h1, C20_interval_u64, C20_interval_i64, if_neg hn, if_pos (by omega)]
+        congr 2; omega
+      · rw [visit_int_i64 n (by omega) h2]
+    · rw [visitToml_int_none n h2] at h; simp at h
+
+/-- a document integer: exactly `0 ..= i64::MAX` is accepted, as that many seconds -/
+theorem C20_interval_int (n : Int) :
+    (parseInterval (.int n)).toOption =
+      if 0 ≤ n ∧ n.toNat ≤ I64_MAX then some (.second, n) else none := by
+  unfold parseInterval
+  by_cases h0 : 0 ≤ n
+  · by_cases h1 : n.toNat < 2 ^ 64
+    · rw [visit_int_u64 n h0 h1, C20_interval_u64]
+      by_cases h3 : n.toNat < 2 ^ 63
+      · have : n.toNat ≤ I64_MAX := by simp only [I64_MAX]; omega
+        rw [if_pos h3, if_pos ⟨h0, this⟩]
+        simp only [toExcept, Except.toOption]
+        congr 2; omega
+      · have : ¬ (0 ≤ n ∧ n.toNat ≤ I64_MAX) := by simp only [I64_MAX]; omega
+        rw [if_neg h3, if_neg this]; rfl
+    · have : ¬ (0 ≤ n ∧ n.toNat ≤ I64_MAX) := by simp only [I64_MAX]; omega
+      rw [visit_int_other n (by omega) (by omega), if_neg this]; rfl
+  · have : ¬ (0 ≤ n ∧ n.toNat ≤ I64_MAX) := fun hc => h0 hc.1
+    rw [if_neg this]
+    by_cases h2 : -(2 ^ 63 : Int) ≤ n ∧ n < 2 ^ 63
+    · rw [visit_int_i64 n (by omega) h2]
+      have : n < 0 := by omega
+      simp [visitInterval, this, toExcept, Except.toOption]
+    · rw [visit_int_other n (fun hc => h0 hc.1) h2]; rfl
+
+/-- no accepted interval is negative or out of `i64` range — for every scalar form -/
+theorem C20_interval_never_wraps (sc : Visit) (u : TUnit) (k : Int)
+    (h : visitInterval sc = .ok (u, k)) : 0 ≤ k ∧ k < 2 ^ 63 := by
+  cases sc with
+  | other => simp [visitInterval] at h
+  | u64 v hv =>
+    rw [C20_interval_u64] at h
+    split at h
+    · simp at h; omega
+    · simp at h
+  | i64 v hv =>
+    rw [C20_interval_i64] at h
+    split at h
+    · simp at h
+    · simp at h; omega
   | str s =>
-    simp only [specInterval] at hs
-    split at hs
-    · simp at hs
-    · split at hs
-      · simp at hs; rw [← hs.2]; omega
-      · simp at hs
-    · split at hs
-      · simp at hs; rw [← hs.2]; omega
-      · simp at hs
+    have := C20_interval_accept_sound s u k h
+    exact ⟨this.1, this.2.1⟩
 
-/-- F8, historical: the unfixed integer path wraps `2^64 - 1` to `-1`. -/
-theorem C20_F8_unfixed_wraps :
-    parseIntervalWith false (.int 18446744073709551615) = .ok (.second, -1) := by
-  simp [parseIntervalWith, I64_MAX, U64_MAX]
+/-- The boundary with C16. The parser accepts every count up to `i64::MAX` with every unit; it does
+not multiply the count by a unit length, so `9223372036854775807 years` IS accepted here. Whether the
+schedule can represent that span is C16's question (signature `C16/interval-overflows-chrono`, fixed:
+the schedule answers "never"); on the configuration path the harness also builds the real
+`TimeTrigger` from every accepted interval and observes that nothing panics. -/
+theorem C20_interval_count_not_scaled :
+    visitInterval (.str "9223372036854775807 years".toList) = .ok (.year, 9223372036854775807) ∧
+    visitInterval (.str "9223372036854775808 seconds".toList) = .err .notNumber := by
+  constructor <;> decide
 
-/-! ### Non-vacuity: concrete inputs meeting the hypotheses and exercising each branch -/
+/-! ### Non-vacuity: concrete inputs meeting the hypotheses and exercising each branch (tests) -/
 
-example : exceptToOption (parseSize (.str "10 Kb".toList)) = some 10240 := by decide
-example : exceptToOption (parseSize (.str "16777216 TiB".toList)) = none := by decide
-example : exceptToOption (parseSize (.str "16777215tb".toList)) = some 18446742974197923840 := by decide
-example : exceptToOption (parseSize (.str "18446744073709551616".toList)) = none := by decide
-example : exceptToOption (parseSize (.str "-1".toList)) = none := by decide
-example : exceptToOption (parseSize (.str "1.5kb".toList)) = none := by decide
-example : exceptToOption (parseInterval (.str "7 Days".toList)) = some (.day, 7) := by decide
-example : exceptToOption (parseInterval (.int 18446744073709551615)) = none := by decide
+example : toOpt (visitSize (.str "10 Kb".toList)) = some 10240 := by decide
+example : toOpt (visitSize (.str "1 KiB　".toList)) = some 1024 := by decide
+example : toOpt (visitSize (.str "3b".toList)) = some 3 := by decide
+example : toOpt (visitSize (.str "3 mB".toList)) = some 3145728 := by decide
+example : toOpt (visitSize (.str "3GiB".toList)) = some 3221225472 := by decide
+example : toOpt (visitSize (.str "16777216 TiB".toList)) = none := by decide
+example : toOpt (visitSize (.str "16777215tb".toList)) = some 18446742974197923840 := by decide
+example : toOpt (visitSize (.str "18446744073709551616".toList)) = none := by decide
+example : toOpt (visitSize (.str "-1".toList)) = none := by decide
+example : toOpt (visitSize (.str "1.5kb".toList)) = none := by decide
+example : toOpt (visitSize (.str "5 ".toList)) = none := by decide
+example : toOpt (visitInterval (.str "7 Days".toList)) = some (.day, 7) := by decide
+example : toOpt (visitInterval (.str "2MONTHS".toList)) = some (.month, 2) := by decide
+example : toOpt (visitInterval (.str "1 secondss".toList)) = none := by decide
+example : toOpt (visitInterval (.u64 18446744073709551615 (by decide))) = none := by decide
+example : SizeLit "10 Kb".toList 10240 :=
+  SizeLit.unit ['1','0'] [' '] ['K','b'] [] 1 (by unfold Digits; decide) (by unfold AllWs; decide)
+    (by unfold AllWs; decide) (by decide)
+/-- slicing does panic off a boundary: the model's panic branch is reachable in general, the theorem
+`C20_split_at_find` says `find` never produces such an offset -/
+example : splitAtByte ['é', 'x'] 1 = none := by decide
+example : splitAtByte ['é', 'x'] 2 = some (['é'], ['x']) := by decide
 
 end Log4rs.Literals
+
+/-! ## `refresh_rate` (`de_duration` → `humantime::parse_duration`)
+
+Claimed for it (scope decision, props.d/C20.json): the value is exactly the sum of number x unit, a
+value that overflows is rejected with an error, nothing panics, junk is rejected. The first two and
+the last hold of the code (theorems below); "nothing panics" is FALSE of the code as it is
+(`C20_refresh_panic_witness`) and holds with one input class excluded (`C20_refresh_no_panic_partial`).
+Not claimed (humantime's own grammar): bare numbers, letter case, fractions — what the code does
+there is recorded by `C20_refresh_bare_number_rejected` and the examples at the end. -/
+namespace Log4rs.Literals.Dur
+open Log4rs.Str Log4rs Log4rs.Literals
+
+theorem texts_ne_zero (l : List SpanLit) (hl : ∀ p ∈ l, p.wf) (hne : l ≠ []) : texts l ≠ ['0'] := by
+  cases l with
+  | nil => exact absurd rfl hne
+  | cons p l' =>
+    obtain ⟨⟨hd, _⟩, _, _, hw, _⟩ := hl p (by simp)
+    intro h
+    have hlen := congrArg List.length h
+    simp only [texts, SpanLit.text, List.length_append, List.length_cons, List.length_nil] at hlen
+    have h1 := List.length_pos_iff.mpr hd
+    have h2 := List.length_pos_iff.mpr hw
+    omega
+
+/-- Structure: on a text that is a sequence of spans `<digits><white space><letters><white space>`
+(the shape the documentation describes, any number of spans, any White_Space characters) the parser
+is the left-to-right fold of "number must fit u64, look the word up, add number x unit". -/
+theorem C20_refresh_spans (l : List SpanLit) (hl : ∀ p ∈ l, p.wf) (hne : l ≠ []) :
+    parseDuration (texts l) = foldSpans l ⟨0, 0⟩ := by
+  unfold parseDuration
+  rw [if_neg (texts_ne_zero l hl hne)]
+  exact run_spans l hl false ⟨0, 0⟩ (Or.inl hne)
+
+/-- Exact value: whatever is accepted is exactly the sum of number x unit over the spans (in
+nanoseconds; `DUnit.nanos` is humantime's documented length of each unit), normalised, within `u64`
+seconds; and every word is one of humantime's suffixes (case-sensitive `unitTable`). -/
+theorem C20_refresh_exact (l : List SpanLit) (hl : ∀ p ∈ l, p.wf) (hne : l ≠ []) (d : Dur)
+    (h : parseDuration (texts l) = .ok d) :
+    d.secs * NPS + d.nanos = valueOf l ∧ d.nanos < NPS ∧ d.secs < 2 ^ 64 ∧
+      ∀ p ∈ l, (unitOfWord p.word).isSome = true := by
+  rw [C20_refresh_spans l hl hne] at h
+  obtain ⟨ht, hn, hs, hu⟩ := foldSpans_ok l ⟨0, 0⟩ d (by decide) (by decide) h
+  refine ⟨by simpa [Dur.total] using ht, hn, ?_, hu⟩
+  simp only [U64_MAX] at hs; omega
+
+/-- Overflow is rejected, never wrapped: a span list whose exact sum is 2^64 seconds or more is not accepted. -/
+theorem C20_refresh_overflow_rejected (l : List SpanLit) (hl : ∀ p ∈ l, p.wf) (hne : l ≠ [])
+    (hbig : 2 ^ 64 * NPS ≤ valueOf l) (d : Dur) : parseDuration (texts l) ≠ .ok d := by
+  intro h
+  obtain ⟨ht, hn, hs, _⟩ := C20_refresh_exact l hl hne d h
+  have : d.secs * NPS + NPS ≤ 2 ^ 64 * NPS := by
+    have : (d.secs + 1) * NPS ≤ 2 ^ 64 * NPS := Nat.mul_le_mul_right _ (by omega)
+    rw [Nat.add_mul] at this; omega
+  omega
+
+/-- ... and what fits is accepted: every span's number x multiplier fits `u64` in the unit's own
+resolution (a sub-second span staying 10^9 below 2^64 ns) and the sum is below 2^64 seconds. -/
+theorem C20_refresh_accepts_when_fits (l : List SpanLit) (hl : ∀ p ∈ l, p.wf) (hne : l ≠ [])
+    (hfit : ∀ p ∈ l, Fits p) (htot : valueOf l < 2 ^ 64 * NPS) :
+    ∃ d, parseDuration (texts l) = .ok d ∧ d.secs * NPS + d.nanos = valueOf l := by
+  have h64 : U64_MAX + 1 = 2 ^ 64 := by decide
+  obtain ⟨d, hd⟩ := foldSpans_fits l ⟨0, 0⟩ (by decide) hfit (by rw [h64]; simpa [Dur.total] using htot)
+  rw [← C20_refresh_spans l hl hne] at hd
+  exact ⟨d, hd, (C20_refresh_exact l hl hne d hd).1⟩
+
+/-- No panic, partial: on span texts the parser panics only when the exact sum of the spans read so
+far is EXACTLY 2^64 seconds (reached through a nanosecond carry). Everything else is accepted or
+rejected with an error. -/
+theorem C20_refresh_no_panic_partial (l : List SpanLit) (hl : ∀ p ∈ l, p.wf) (hne : l ≠ []) (w : String)
+    (h : parseDuration (texts l) = .panic w) :
+    ∃ l1 p l2, l = l1 ++ p :: l2 ∧ valueOf (l1 ++ [p]) = 2 ^ 64 * NPS := by
+  rw [C20_refresh_spans l hl hne] at h
+  obtain ⟨l1, p, l2, hl', hv⟩ := foldSpans_panic l ⟨0, 0⟩ w (by decide) h
+  have h64 : U64_MAX + 1 = 2 ^ 64 := by decide
+  exact ⟨l1, p, l2, hl', by rw [← h64]; simpa [Dur.total] using hv⟩
+
+/-- The full "nothing panics" is false of the code as it is: this `refresh_rate` panics inside
+`Duration::new` (reproduced on the real crate through YAML, JSON and TOML; corpus/C20.cases). -/
+theorem C20_refresh_panic_witness :
+    parseRefreshWith false "18446744073709551615s 1000000000ns".toList = .panic "overflow in Duration::new" := by
+  decide
+
+theorem C20_refresh_no_panic_fails : ¬ ∀ s w, parseRefreshWith false s ≠ .panic w :=
+  fun h => h _ _ C20_refresh_panic_witness
+
+/-- with the proposed repair (the call wrapped in `catch_unwind`) nothing panics, on any text -/
+theorem C20_refresh_caught_no_panic (s : List Char) (w : String) : parseRefreshWith true s ≠ .panic w := by
+  unfold parseRefreshWith
+  cases parseDuration s <;> simp
+
+/-- the statement for the code as configured in the model (`refreshPanicCaught` is flipped to `true`
+by the integrator together with the `fix:` commit; until then the hypothesis is false) -/
+theorem C20_refresh_no_panic_when_caught (h : refreshPanicCaught = true) (s : List Char) (w : String) :
+    parseRefresh s ≠ .panic w := by
+  unfold parseRefresh; rw [h]; exact C20_refresh_caught_no_panic s w
+
+/-- ... and the repair changes nothing else -/
+theorem C20_refresh_caught_same (s : List Char) (d : Dur) :
+    parseRefreshWith true s = .ok d ↔ parseRefreshWith false s = .ok d := by
+  unfold parseRefreshWith
+  cases parseDuration s <;> simp
+
+/-- Junk is rejected: a character that is no digit, white space, ASCII letter, 'µ' or '.' anywhere
+in the text (`-`, `+`, `_`, `,`, `:`, digits and letters of other scripts, look-alike blanks …). -/
+theorem C20_refresh_invalid_char_rejected (s : List Char) (h : ∃ c ∈ s, BadChar c) (d : Dur) :
+    parseDuration s ≠ .ok d := by
+  unfold parseDuration
+  split
+  · rename_i h0
+    subst h0
+    obtain ⟨c, hc, hb⟩ := h
+    simp only [List.mem_singleton] at hc
+    subst hc
+    exact absurd hb.1 (by decide)
+  · exact run_bad s _ _ h d
+
+/-- Junk is rejected: the first non-blank character must be a digit (negative numbers, signs, a unit
+without a number). -/
+theorem C20_refresh_leading_nondigit_rejected (ws r : List Char) (c : Char) (hws : AllWs ws)
+    (hd : isAsciiDigit c = false) (hw : isWhitespace c = false) :
+    parseDuration (ws ++ c :: r) = .err .numberExpected := by
+  unfold parseDuration
+  have hne : ws ++ c :: r ≠ ['0'] := by
+    intro h
+    cases ws with
+    | nil =>
+      simp only [List.nil_append, List.cons.injEq] at h
+      rw [h.1] at hd; exact absurd hd (by decide)
+    | cons a t =>
+      simp only [List.cons_append, List.cons.injEq] at h
+      have := hws a (by simp)
+      rw [h.1] at this; exact absurd this (by decide)
+  rw [if_neg hne, run_ws_first _ _ _ _ hws, run_cons]
+  simp [step, hd, hw, obind]
+
+/-- NOT claimed for refresh_rate, recorded: a bare number is rejected ("time unit needed"), except the
+single text `0`. (The trigger literals accept bare numbers as bytes / seconds.) -/
+theorem C20_refresh_bare_number_rejected (ds : List Char) (hds : Digits ds) (hne : ds ≠ ['0']) (d : Dur) :
+    parseDuration ds ≠ .ok d := by
+  unfold parseDuration
+  rw [if_neg hne]
+  obtain ⟨hnil, hdig⟩ := hds
+  cases ds with
+  | nil => exact absurd rfl hnil
+  | cons a t =>
+    have ha := hdig a (by simp)
+    have ha9 : digitVal a ≤ U64_MAX := by
+      simp only [isAsciiDigit, Bool.and_eq_true, decide_eq_true_eq] at ha
+      simp only [digitVal, U64_MAX]
+      have : a.toNat ≤ 57 := ha.2
+      omega
+    rw [run_cons]
+    simp only [step, ha, if_true, obind]
+    have := run_digits t [] (digitVal a) ⟨0, 0⟩ ha9 (fun c hc => hdig c (by simp [hc]))
+    rw [List.append_nil] at this
+    rw [this]
+    split
+    · simp [run, finish, parseUnit, unitOfWord, unitTable]
+    · simp
+
+/-! ### Non-vacuity and the clauses that are not claimed (tests on samples) -/
+
+example : parseDuration "30 seconds".toList = .ok ⟨30, 0⟩ := by decide
+example : parseDuration "1hour 12min 5s".toList = .ok ⟨4325, 0⟩ := by decide
+example : parseDuration "18446744073709551615ns 1ns".toList = .ok ⟨18446744073, 709551616⟩ := by decide
+example : parseDuration "18446744073709551615s 999999999ns".toList = .ok ⟨18446744073709551615, 999999999⟩ := by decide
+example : parseDuration "18446744073709551615s 1000000001ns".toList = .err .overflow := by decide
+example : parseDuration "18446744073709551616s".toList = .err .overflow := by decide
+-- letter case is significant (not claimed): `Seconds` is no unit, `M` is a month and `m` a minute
+example : parseDuration "30 Seconds".toList = .err .unknownUnit := by decide
+example : parseDuration "1 M".toList = .ok ⟨2630016, 0⟩ := by decide
+example : parseDuration "1 m".toList = .ok ⟨60, 0⟩ := by decide
+-- fractions are accepted (not claimed)
+example : parseDuration "1.5s".toList = .ok ⟨1, 500000000⟩ := by decide
+-- bare numbers (not claimed)
+example : parseDuration "30".toList = .err .unknownUnit := by decide
+example : parseDuration "0".toList = .ok ⟨0, 0⟩ := by decide
+-- white space inside a number is skipped
+example : parseDuration "1 2 s".toList = .ok ⟨12, 0⟩ := by decide
+example : (⟨['3','0'], [' '], ['s','e','c','o','n','d','s'], []⟩ : SpanLit).wf := by
+  unfold SpanLit.wf Digits AllWs; decide
+
+end Log4rs.Literals.Dur
